@@ -7,7 +7,7 @@ _TB = ("Trusted base: clang 14 front end (AST, CFG, constant evaluator), the pyt
 
 CLAIMS = {
     "C01": {
-        "text": "Decides the table/database/dispatch clauses only: every entry of the encoder's constant lookup tables equals an independent oracle (exhaustive, 1237 entries), every instruction row's main/alt opcode (prefix, map, byte, /digit) occurs in a db/isa_x86.json form of the mnemonic (1769 cells), every encoding class has a dispatch case, FIXUP_GPB constants, pc-relative displacements account for the trailing immediate and take the current position from the writer cursor, REX is the last prefix and FWAIT precedes the overrides on every path, register ids are not compared before FIXUP_GPB, packed ModRM fields are not tested after a merge, generated tables regenerate identically (thorough).; invalid-marker entries of the 16-bit addressing tables are tested before use; operands are reinterpreted only as the kind the dominating test established; the displacement-less ModRM form excludes BP/R13 (16-bit: the disp16 slot), a path that knows the operand has an index register reads its scale before the instruction is closed, 64-bit immediates are range-tested unsigned or on both sides, and the validator consults the EVEX-capability flags the register allocator uses before it can accept vector registers 16..31 Does not decide ModRM/immediate arithmetic over operand values. Also (round 8): no ModRM/SIB path of _emit ends without the kind of the base (label / register) having been tested (R-LABEL-BASE-LOOKED-AT). Round 9: the two opcode bytes composed for the x87 arithmetic register forms equal the database form of the same operand order (both branches of kEncodingFpuArith folded from the source, R-FPU-ARITH-BYTE-BY-ORDER); the segment prefix of an implicit memory operand is written only after its base id was compared with zdi, and the two-memory string case selects the overridable operand by base id (R-ES-OPERAND-NOT-OVERRIDABLE, positions from db/isa_x86.json).",
+        "text": "Decides the table/database/dispatch clauses only: every entry of the encoder's constant lookup tables equals an independent oracle (exhaustive, 1237 entries), every instruction row's main/alt opcode (prefix, map, byte, /digit) occurs in a db/isa_x86.json form of the mnemonic (1769 cells), every encoding class has a dispatch case, FIXUP_GPB constants, pc-relative displacements account for the trailing immediate and take the current position from the writer cursor, REX is the last prefix and FWAIT precedes the overrides on every path, register ids are not compared before FIXUP_GPB, packed ModRM fields are not tested after a merge, generated tables regenerate identically (thorough).; invalid-marker entries of the 16-bit addressing tables are tested before use; operands are reinterpreted only as the kind the dominating test established; the displacement-less ModRM form excludes BP/R13 (16-bit: the disp16 slot), a path that knows the operand has an index register reads its scale before the instruction is closed, 64-bit immediates are range-tested unsigned or on both sides, and the validator consults the EVEX-capability flags the register allocator uses before it can accept vector registers 16..31 Does not decide ModRM/immediate arithmetic over operand values. Also (round 8): no ModRM/SIB path of _emit ends without the kind of the base (label / register) having been tested (R-LABEL-BASE-LOOKED-AT). Round 9: the two opcode bytes composed for the x87 arithmetic register forms equal the database form of the same operand order (both branches of kEncodingFpuArith folded from the source, R-FPU-ARITH-BYTE-BY-ORDER); the segment prefix of an implicit memory operand is written only after its base id was compared with zdi, and the two-memory string case selects the overridable operand by base id (R-ES-OPERAND-NOT-OVERRIDABLE, positions from db/isa_x86.json). Every address-size prefix decision is dominated by a test of the 16-bit-addressing flag against the mode (R-ADDR16-ONLY-IN-32BIT).",
         "design_ref": "DESIGN.md section 3 / C01",
         "note": _TB,
         "technique": "constant-evaluated table dump (clang APValue) compared with independent oracle tables and the ISA database; switch-coverage lint",
@@ -83,7 +83,7 @@ CLAIMS = {
         "technique": "regeneration diff, exhaustive decode of dumped name tables, CFG dominance",
     },
     "C14": {
-        "text": "Decides guard/atomicity clauses: label ids validated before dereference; AArch64 register ids validated before packing; emit functions (x86, a64, Builder) reset one-shot state on every exit, commit bytes only on success, never reach an input-validation exit after a fixup/relocation/address-table commit; the shared failure exit resets state before the handler can throw; AArch64 64-bit immediates are range-tested before narrowing and condition codes are bounded by the enum; label-count comparisons are strict; every failing return of an emitter interface function passes through report_error() (flow-sensitive), one-shot state is reset before the handler runs, a label is validated before the first commit of a multi-step function; constant-table subscripts are bounded for arbitrary operands (38 subscripts, upper-bound evaluator) and the opcode MM field stays inside its table; the CodeHolder is used only after `_code` was tested.; Builder::bind and the other registry-node adders link a node only when it is known not to be part of the list; operand reinterpretation, invalid-marker tables, memory index type, shift-type class and sibling range tests as in C02; lossless-shift, register-type and FP-shape rules as in C02; every non-noexcept Builder/Compiler API function reports its errors; Compiler functions grab the one-shot state before every exit; the a64 id range / condition tests read the raw id; BaseEmitter dispatchers that forward to _emit() fail through reset_state() + report_error(); 64-bit immediates are range-tested unsigned or on both sides; no label is registered before the arguments were validated; index write-back mode as in C02; in the two _emit functions every reporting call is a callee that resets first or is reached after reset_state(); log lines are written only after the last refusing step; Section identity as in C08 Does not decide that every invalid operand kind is rejected, nor operand-indexed table subscripts. Also (round 8): R-PHYS-ID-MASK-APPLIED (see C13).",
+        "text": "Decides guard/atomicity clauses: label ids validated before dereference; AArch64 register ids validated before packing; emit functions (x86, a64, Builder) reset one-shot state on every exit, commit bytes only on success, never reach an input-validation exit after a fixup/relocation/address-table commit; the shared failure exit resets state before the handler can throw; AArch64 64-bit immediates are range-tested before narrowing and condition codes are bounded by the enum; label-count comparisons are strict; every failing return of an emitter interface function passes through report_error() (flow-sensitive), one-shot state is reset before the handler runs, a label is validated before the first commit of a multi-step function; constant-table subscripts are bounded for arbitrary operands (38 subscripts, upper-bound evaluator) and the opcode MM field stays inside its table; the CodeHolder is used only after `_code` was tested.; Builder::bind and the other registry-node adders link a node only when it is known not to be part of the list; operand reinterpretation, invalid-marker tables, memory index type, shift-type class and sibling range tests as in C02; lossless-shift, register-type and FP-shape rules as in C02; every non-noexcept Builder/Compiler API function reports its errors; Compiler functions grab the one-shot state before every exit; the a64 id range / condition tests read the raw id; BaseEmitter dispatchers that forward to _emit() fail through reset_state() + report_error(); 64-bit immediates are range-tested unsigned or on both sides; no label is registered before the arguments were validated; index write-back mode as in C02; in the two _emit functions every reporting call is a callee that resets first or is reached after reset_state(); log lines are written only after the last refusing step; Section identity as in C08 Does not decide that every invalid operand kind is rejected, nor operand-indexed table subscripts. Also (round 8): R-PHYS-ID-MASK-APPLIED (see C13). R-ADDR16-ONLY-IN-32BIT (see C01): 16-bit addressing is refused in 64-bit mode without the validator.",
         "design_ref": "DESIGN.md section 3 / C14",
         "note": _TB,
         "technique": "must-set / reachability dataflow on clang CFG, sibling-guard comparison, index-range vs table-length check",
